@@ -36,10 +36,10 @@ structure PresD (P : Option Nat → View → Prop) : Prop where
   cqPop : ∀ {x v i rest}, P x v → v.cq = i :: rest → P x { v with cq := rest }
   infRemove : ∀ {x v} (id : Nat), P x v → P x { v with inflight := v.inflight.filter (·.id != id) }
   drop_x : ∀ {v id}, P (some id) v → (v.poisoned = true ∨ ∀ e ∈ v.inflight, e.id ≠ id) → P none v
-  popInsert : ∀ {v r rest} (key rem : Nat), P none v → v.pq = r :: rest → (∃ c, v.get r.cid = some c ∧ c.rxClosed = false) →
-      P (some r.id) { v with pq := rest, inflight := v.inflight ++ [{ id := r.id, cid := r.cid, ctx := r.ctx, timerKey := key, remainder := rem }] }
+  popInsert : ∀ {v r rest} (key rem due : Nat), P none v → v.pq = r :: rest → (∃ c, v.get r.cid = some c ∧ c.rxClosed = false) →
+      P (some r.id) { v with pq := rest, inflight := v.inflight ++ [{ id := r.id, cid := r.cid, ctx := r.ctx, timerKey := key, remainder := rem, dueAt := due }] }
   /-- a deadline timer is re-armed: the entry gets a new timer key and a smaller remainder -/
-  infRearm : ∀ {x v} (id key t : Nat), P x v → P x { v with inflight := v.inflight.map (rearmEntry id key t) }
+  infRearm : ∀ {x v} (id key t due : Nat), P x v → P x { v with inflight := v.inflight.map (rearmEntry id key t due) }
   sendReqOk : ∀ {v id e} (t : TaskId) (body : Nat), P (some id) v → v.poisoned = false → e ∈ v.inflight → e.id = id →
       (∃ c, v.get e.cid = some c ∧ c.rxClosed = false ∧ body = c.body) →
       P none { v with sentLog := v.sentLog ++ [Msg.request id e.ctx.deadline e.ctx.trace body], rel := .tSend t (Msg.request id e.ctx.deadline e.ctx.trace body) true :: v.rel }
@@ -114,8 +114,8 @@ theorem Inv.presD : PresD Inv where
   cqPop := fun hi h => (hi.cqPop h).1
   infRemove := fun id hi => hi.infRemove id
   drop_x := fun hi h => hi.drop_x h
-  popInsert := fun key rem hi hpq hnc => (hi.pqPop hpq).1.infInsert (hi.pqPop hpq).2 hnc key rem
-  infRearm := fun id key t hi => hi.infMap _ (rearmEntry_same id key t)
+  popInsert := fun key rem due hi hpq hnc => (hi.pqPop hpq).1.infInsert (hi.pqPop hpq).2 hnc key rem due
+  infRearm := fun id key t due hi => hi.infMap _ (rearmEntry_same id key t due)
   sendReqOk := fun _ body hi hp he hid hb =>
     (hi.sendReq hp he hid body (fun c hc => by
       obtain ⟨c', hc', _, h⟩ := hb; rw [hc] at hc'; injection hc' with hc'; subst hc'; exact h)).of_rel _
@@ -282,8 +282,8 @@ theorem PresD.withFrame {P : Option Nat → View → Prop} (hP : PresD P) (v0 : 
   cqPop := fun h hcq => ⟨hP.cqPop h.1 hcq, h.2⟩
   infRemove := fun id h => ⟨hP.infRemove id h.1, h.2⟩
   drop_x := fun h hx => ⟨hP.drop_x h.1 hx, h.2⟩
-  popInsert := fun key rem h hpq hnc => ⟨hP.popInsert key rem h.1 hpq hnc, h.2⟩
-  infRearm := fun id key t h => ⟨hP.infRearm id key t h.1, h.2⟩
+  popInsert := fun key rem due h hpq hnc => ⟨hP.popInsert key rem due h.1 hpq hnc, h.2⟩
+  infRearm := fun id key t due h => ⟨hP.infRearm id key t due h.1, h.2⟩
   sendReqOk := fun t body h hp he hid hb => ⟨hP.sendReqOk t body h.1 hp he hid hb, h.2⟩
   sendReqFail := fun {v id e} t body pn t' site h hp he hid hb => ⟨hP.sendReqFail t body pn t' site h.1 hp he hid hb,
     Frame.send (v := { v with inflight := v.inflight.filter (·.id != id), poisoned := v.poisoned || pn, rel := stopObs pn t' site ++ .tSend t (Msg.request id e.ctx.deadline e.ctx.trace body) false :: v.rel }) h.2 e.cid _⟩
